@@ -163,6 +163,9 @@ inductive Op (K V : Type) where
   | items                                           -- list(c.items()) (keys()/values()/iter agree)
   | eq (o : Arg K V)                                -- c == o
   | ne (o : Arg K V)                                -- c != o
+  | updateFail (l : List (K × V))                   -- c.update(E) / c |= E where iterating E yields l, then raises
+  | eqOther                                         -- c == x for an x that is not a mapping (None, 5, a list …)
+  | neOther                                         -- c != x for such an x
 
 /-- `update(E, **F)` -/
 def Cache.update (c : Cache K V) (e : Arg K V) (kw : List (K × V)) : Cache K V :=
@@ -214,6 +217,12 @@ def step [DecidableEq V] (c : Cache K V) : Op K V → Cache K V × Out K V (Cach
   | .items => (c, .items c.d)
   | .eq o => (c, .bool (c.eqArg o))
   | .ne o => (c, .bool (!c.eqArg o))
+  -- `for k, v in E: setitem(k, v)` assigns the pairs it gets before the iterator (or the unpacking of
+  -- a malformed element) raises; the exception propagates, keyword arguments are never reached
+  | .updateFail l => (c.setAll l, .raised)
+  -- `dict.__eq__` answers NotImplemented for a non-dict, the reflected comparison too: identity decides
+  | .eqOther => (c, .bool false)
+  | .neOther => (c, .bool true)
 
 /-- a whole history on one cache: final state (results dropped) -/
 def run [DecidableEq V] (c : Cache K V) (ops : List (Op K V)) : Cache K V :=
@@ -224,12 +233,25 @@ def outs [DecidableEq V] (c : Cache K V) : List (Op K V) → List (Out K V (Cach
   | [] => []
   | op :: ops => (step c op).2 :: outs (step c op).1 ops
 
-/-! several caches: `copy()` adds a cache, `==` may compare two of them -/
+/-! several caches: `copy()` adds a cache, `==` may compare two of them, `update` / `|=` may read one
+    cache into another -/
 
 inductive WOp (K V : Type) where
   | on (i : Nat) (op : Op K V)       -- call a method of cache number i
   | eqc (i j : Nat)                  -- cache i == cache j
   | nec (i j : Nat)                  -- cache i != cache j
+  | updc (i j : Nat) (kw : List (K × V))   -- cache i .update(cache j, **kw)   (`i |= j` is `updc i j []`)
+
+/-- `for k in E.keys(): setitem(k, E[k])` where `E` is another cache `o`: every `E[k]` is a call of
+    `o.__getitem__` (it counts a hit on `o` and, for an LRU, refreshes the key in `o`).  The flag is
+    false when an `E[k]` raised (impossible while `o`'s dict and ring are in step:
+    `Props.update_from_cache`); the update stops there. -/
+def updFrom (c o : Cache K V) : List K → Cache K V × Cache K V × Bool
+  | [] => (c, o, true)
+  | k :: ks =>
+    match o.getitem k with
+    | (o', .val v) => updFrom (c.setitem k v) o' ks
+    | (o', _) => (c, o', false)
 
 /-- the right operand "cache number j" as seen by cache number i -/
 def argOf (w : List (Cache K V)) (i j : Nat) : Arg K V :=
@@ -253,6 +275,14 @@ def wstep [DecidableEq V] (w : List (Cache K V)) : WOp K V → List (Cache K V) 
     match w[i]? with
     | none => (w, .none)
     | some c => (w, (step c (.ne (argOf w i j))).2)
+  | .updc i j kw =>
+    match w[i]?, w[j]? with
+    | some c, some o =>
+      if i = j then (w, .none)          -- `if E is self: return`
+      else match updFrom c o (keys o.d) with
+        | (c', o', true) => ((w.set i (c'.setAll kw)).set j o', .none)
+        | (c', o', false) => ((w.set i c').set j o', .keyError)
+    | _, _ => (w, .none)
 
 def wrun [DecidableEq V] (w : List (Cache K V)) (ops : List (WOp K V)) : List (Cache K V) :=
   ops.foldl (fun w op => (wstep w op).1) w
